@@ -19,7 +19,8 @@ ASSUMPTIONS = c01.ASSUMPTIONS
 
 SHORT = [0]      # how many bitmap bytes the 'shortrec' record keeps (set per case)
 KINDS = ['truncated', 'oversized', 'badmti', 'unknownbit', 'badlen', 'badtyped', 'badpds', 'badicc', 'shortrec',
-         'shortfixed', 'shortvar2', 'shortvar3', 'surplus', 'unknownbit_end', 'unknownbit_128', 'baddate_hour', 'baddate_month']
+         'shortfixed', 'shortvar2', 'shortvar3', 'surplus', 'unknownbit_end', 'unknownbit_128', 'baddate_hour', 'baddate_month',
+         'foreignlen2', 'foreignlen3', 'foreignmti']
 
 
 def custom_config():
@@ -94,6 +95,16 @@ def bad_record(kind, codec):
         return e('1240') + bm([2, 126]) + e('0212')
     if kind == 'unknownbit_128':     # a configured element flagged after the data has run out
         return e('1240') + bm([2, 94]) + e('0212')
+    # a length prefix / MTI spelled in the digits of the OTHER character-set family (ASCII digits in an EBCDIC file, EBCDIC
+    # digits in an ASCII-family file) with the value that WOULD fit: in the file's own character set these bytes are no
+    # digits, so the record is faulty
+    other = (lambda t: t.encode('latin_1')) if codec in ('cp500', 'cp037', 'cp273', 'cp1140') else (lambda t: t.encode('cp500'))
+    if kind == 'foreignlen2':
+        return e('1240') + bm([2, 3]) + other('16') + e('5' * 16 + '000000')
+    if kind == 'foreignlen3':
+        return e('1240') + bm([3, 48]) + e('000000') + other('017') + e('0023003ABC0158000')
+    if kind == 'foreignmti':
+        return other('1240') + bm([2, 3]) + e('16' + '5' * 16 + '000000')
     if kind == 'custombit':      # fine for the packaged configuration, unknown bit 49 for custom_config()
         return e('1240') + bm([2, 49]) + e('0212' + '978')
     return good_record(1, codec)
